@@ -90,7 +90,7 @@ class Clause(object):
     def __exit__(self, et, ev, tb):
         if et is not None:
             return False
-        if len(self.obs) < self.floor:
+        if len(self.obs) < self.floor and not any(not o.ok for o in self.obs):
             raise AnalysisError('%s-%s (%s): %d rule instances found, below the hand-confirmed '
                                 'floor of %d (rule would pass vacuously)'
                                 % (self.run.prop, self.cid, self.rule, len(self.obs), self.floor))
